@@ -84,7 +84,7 @@ func init() {
 		return nil
 	})
 	reg(verifPkg+".YieldAtStore", func(p *Path, _ *frame, a []Value) Value {
-		p.nhOf(a[0]).yieldAtStore = p.boolArg(a[1]).IsTrue()
+		p.nhOf(a[0]).yieldAtStore = p.branch(p.boolArg(a[1]))
 		return nil
 	})
 	reg(N+"GetNoOPSession", func(p *Path, _ *frame, a []Value) Value {
